@@ -9,11 +9,24 @@ from .symbolic import (
     chained_logic,
     AND,
     BinaryOperator,
+    Literal,
     T,
 )
 
 if TYPE_CHECKING:
     from .entity import ConditionType
+
+
+def _branch_conditions(*conditions: ConditionType) -> SymbolicExpression[T]:
+    """
+    :param conditions: The conditions of a branch. They are chained with AND.
+    :return: The conditions as one symbolic expression, a plain python value (e.g., True for an unconditional branch)
+        becomes a literal.
+    """
+    new_branch = chained_logic(AND, *conditions)
+    if not isinstance(new_branch, SymbolicExpression):
+        new_branch = Literal(new_branch)
+    return new_branch
 
 
 def refinement(*conditions: ConditionType) -> SymbolicExpression[T]:
@@ -27,7 +40,7 @@ def refinement(*conditions: ConditionType) -> SymbolicExpression[T]:
     :param conditions: The refinement conditions. They are chained with AND.
     :returns: The newly created branch node for further chaining.
     """
-    new_branch = chained_logic(AND, *conditions)
+    new_branch = _branch_conditions(*conditions)
     current_node = SymbolicExpression._current_parent_()
     prev_parent = current_node._parent_
     current_node._parent_ = None
@@ -83,7 +96,7 @@ def alternative_or_next(
     :param conditions: Conditions to chain with AND and attach as an alternative.
     :returns: The newly created branch node for further chaining.
     """
-    new_branch = chained_logic(AND, *conditions)
+    new_branch = _branch_conditions(*conditions)
     current_node = SymbolicExpression._current_parent_()
     if isinstance(current_node._parent_, (Alternative, Next)):
         current_node = current_node._parent_
